@@ -28,6 +28,7 @@ import time
 import traceback
 
 from vmon.core import rng_for
+from vmon import c03_helpers as H
 
 PROPERTY = 'C03'
 LEVEL = 'exploration'
@@ -57,12 +58,14 @@ FLOORS = {
               'iso:refused_jobs_checked': 45, 'iso:syn_wait_checked': 60, 'iso:gate_checked': 5,
               'pool:scenarios': 6, 'pool:accept_before_result': 20, 'pool:refused_jobs': 8,
               'pool:owner_checked': 20, 'pool:recycle_exits_checked': 1,
+              'ackwin:resolved_by_other_thread': 9,
               'parent:histories': 600, 'parent:nack_sent': 200, 'parent:cancel_after_ack': 100,
               'parent:map_owner_checked': 200},
     'thorough': {'iso:lifetimes': 400, 'iso:ack': 2000, 'iso:ready': 1500, 'iso:nack_sent': 400,
                  'iso:death_155': 200, 'iso:spawn_lifetimes': 60, 'iso:guard_waited': 1,
                  'iso:nack_with_quota': 200, 'iso:late_credit_held': 30,
                  'pool:scenarios': 30, 'pool:refused_jobs': 40, 'pool:recycle_exits_checked': 5,
+                 'ackwin:resolved_by_other_thread': 45,
                  'parent:histories': 6000},
 }
 
@@ -96,6 +99,8 @@ def plan(tier, seed):
     for i in range(n_pool):
         specs.append({'lane': 'pool', 'sc': 'synack' if i % 2 else 'plain',
                       'seed': seed * 10000 + 2000 + i, 'timeout': 150})
+    for i in range(6 if tier == 'quick' else 30):
+        specs.append({'lane': 'ackwin', 'seed': seed * 10000 + 4000 + i, 'timeout': 150})
     for i in range(n_parent):
         specs.append({'lane': 'parent', 'seed': seed * 10000 + 3000 + i, 'histories': hist,
                       'timeout': 120})
@@ -119,6 +124,8 @@ def run_spec(spec, rec):
         run_iso_spec(spec, rec)
     elif spec['lane'] == 'pool':
         run_pool_spec(spec, rec)
+    elif spec['lane'] == 'ackwin':
+        run_ackwin_spec(spec, rec)
     else:
         run_parent_spec(spec, rec)
 
@@ -161,10 +168,10 @@ def gen_lifetime(rng, method, tier, guard=False):
         elif kind == 'sysexit':
             d['code'] = rng.choice([0, 3, 155])
         elif kind == 'unpick':
-            d['what'] = rng.choice(['lambda', 'gen', 'lock', 'local'])
+            d['what'] = rng.choice(['lambda', 'gen', 'lock', 'local'] + H.UNPICK_WHATS)
             d['depth'] = rng.choice([0, 1, 2, 3])
         elif kind == 'exc_unpick':
-            d['what'] = rng.choice(['lambda', 'gen', 'lock'])
+            d['what'] = rng.choice(H.UNPICK_WHATS)
         elif kind == 'gate':
             d['maxwait'] = 10.0
         j = {'id': ids[k], 'i': None if p['i_style'] == 'none' else rng.randrange(0, 6),
@@ -817,7 +824,7 @@ def gen_pool(rng, sc, tier):
             elif kind == 'base':
                 d['exc'] = rng.choice(['KeyboardInterrupt', 'GeneratorExit'])
             elif kind == 'unpick':
-                d['what'], d['depth'] = rng.choice(['lambda', 'gen']), rng.choice([0, 2])
+                d['what'], d['depth'] = rng.choice(['lambda', 'gen'] + H.UNPICK_WHATS), rng.choice([0, 2])
             elif kind == 'gate':
                 d['maxwait'] = 40.0
             jobs.append({'tag': d['tag'], 'desc': d, 'pause': rng.choice([0, 0, 0.01])})
@@ -871,6 +878,53 @@ def run_pool_spec(spec, rec):
         rec.violation('scenario_hung', dict(attrs, phase='close_join'), params=p,
                       stacks=r['stderr'][-5000:])
     judge_pool(sc, p, obs, ev, attrs, rec)
+
+
+def run_ackwin_spec(spec, rec):
+    """lane ACKWIN (real pool, pool threads on): the result handler naps at
+    one line of ApplyResult._ack while the timeout scanner / the supervisor
+    resolves the same job; the accept callback still precedes the result
+    callback (events: callback stamps taken in the parent)"""
+    from vmon import real
+    rng = rng_for(spec['seed'], 'ackwin')
+    for resolver in ('hard', 'termjob', 'lost'):
+        p = {'resolver': resolver, 'line': rng.randrange(2, 13), 'nap': 2.6}
+        r = real.run_scenario('vmon.real_pool', 'sc_ack_window', p, timeout=100,
+                              tag='c03ackwin')
+        obs = r['obs']
+        if r['status'] == 'scenario_error':
+            raise RuntimeError('scenario error: ' + obs.get('scenario_exception', r['stderr'][-2000:]))
+        rec.case()
+        rec.count('ackwin:scenarios')
+        attrs = {'lane': 'ackwin', 'resolver': resolver}
+        if r['status'] != 'ok' or 'cbs' not in obs:
+            rec.violation('scenario_hung' if r['status'] == 'hang' else 'host_process_died',
+                          attrs, params=p, obs=obs, stacks=r['stderr'][-4000:])
+            continue
+        which = [c[0] for c in obs['cbs']]
+        if not obs.get('nap_reached'):
+            rec.anomaly('ack_window_not_reached', params=p)
+            continue
+        rec.count('ackwin:nap_reached')
+        if obs['outcome'][0] == 'unresolved':
+            rec.violation('job_not_resolved', attrs, params=p, obs=obs)
+            continue
+        res = [w for w in which if w in ('ok', 'err')]
+        if which.count('accept') != 1 or len(res) != 1:
+            rec.violation('accept_or_result_callback_not_once', attrs, params=p, callbacks=obs['cbs'],
+                          outcome=obs['outcome'])
+            continue
+        rec.count('ackwin:accept_before_result')
+        if obs['outcome'][0] == 'exc':
+            rec.count('ackwin:resolved_by_other_thread')
+        if which.index('accept') > which.index(res[0]):
+            rec.violation('result_callback_before_accept_callback', attrs, params=p,
+                          callbacks=obs['cbs'], nap_at_line=obs.get('nap_at_line'))
+        if obs.get('probe', ['?'])[0] != 'ok':
+            rec.violation('pool_unusable_afterwards', attrs, params=p, probe=obs.get('probe'))
+        rec.sig(['ackwin', resolver, obs.get('nap_at_line'), obs['outcome'][:2]])
+        rec.sample({'lane': 'ackwin', 'resolver': resolver, 'nap_at_line': obs.get('nap_at_line'),
+                    'outcome': obs['outcome'][:2], 'callback_order': which})
 
 
 def judge_pool(sc, p, obs, ev, attrs, rec):
